@@ -356,10 +356,16 @@ func SimMain(t *testing.T) {
 	}
 	runtime.GOMAXPROCS(1)
 	debug.SetGCPercent(400)
+	// GC is switched off inside a run (see runOne); the memory limit makes the
+	// collector step in anyway if the system under test allocates in a loop.
+	debug.SetMemoryLimit(1 << 30)
 	if os.Getenv("SIM_DEBUG") == "" {
 		log.SetOutput(io.Discard)
 	}
 	litefs.TraceLog.SetOutput(io.Discard)
+	if os.Getenv("SIM_DEBUG") == "2" {
+		litefs.TraceLog.SetOutput(os.Stderr)
+	}
 	if kf := os.Getenv("SIM_KNOWN"); kf != "" {
 		if err := json.Unmarshal([]byte(kf), &knownFindings); err != nil {
 			fmt.Println("bad SIM_KNOWN:", err)
@@ -559,10 +565,52 @@ func watchdog() {
 			continue
 		}
 		if time.Since(lastT) > limit {
-			buf := make([]byte, 1<<20)
+			buf := make([]byte, 4<<20)
 			n := runtime.Stack(buf, true)
-			fmt.Fprintf(os.Stderr, "WATCHDOG: no progress for %s\n%s\n", limit, buf[:n])
+			dump := string(buf[:n])
+			if fn := sutSpinning(dump); fn != "" {
+				// A goroutine of the bubble is busy inside LiteFS and nothing else
+				// moves: the system under test hangs. That is a finding, not
+				// harness trouble; the orchestrator turns it into a violation.
+				fmt.Fprintf(os.Stderr, "SUT-HANG: %s\n%s\n", fn, dump)
+				os.Exit(3)
+			}
+			fmt.Fprintf(os.Stderr, "WATCHDOG: no progress for %s\n%s\n", limit, dump)
 			os.Exit(2)
 		}
 	}
 }
+
+// sutSpinning looks for a running/runnable bubble goroutine whose innermost
+// non-runtime frame belongs to LiteFS (not to the harness).
+func sutSpinning(dump string) string {
+	for _, blk := range strings.Split(dump, "\n\n") {
+		lines := strings.Split(blk, "\n")
+		if len(lines) < 2 || !strings.Contains(lines[0], "synctest bubble") {
+			continue
+		}
+		if !strings.Contains(lines[0], "[running") && !strings.Contains(lines[0], "[runnable") {
+			continue
+		}
+		for _, l := range lines[1:] {
+			if strings.HasPrefix(l, "\t") || l == "" {
+				continue
+			}
+			if strings.HasPrefix(l, "runtime.") || strings.HasPrefix(l, "syscall.") || strings.HasPrefix(l, "internal/") || strings.HasPrefix(l, "os.") || strings.HasPrefix(l, "io.") || strings.HasPrefix(l, "bytes.") || strings.HasPrefix(l, "encoding/") {
+				continue
+			}
+			if strings.HasPrefix(l, "github.com/superfly/litefs/verifsim.") {
+				break
+			}
+			if strings.HasPrefix(l, "github.com/superfly/") {
+				if i := strings.Index(l, "("); i > 0 {
+					return l[:strings.LastIndex(l, "(")]
+				}
+				return l
+			}
+			break
+		}
+	}
+	return ""
+}
+
